@@ -51,7 +51,7 @@ Proof.
   pose proof (H (KPot REgr)); pose proof (H (KPot RRR)); pose proof (H (KPot RRW));
   pose proof (H (KEarn RRpc)); pose proof (H (KEarn RSto)); pose proof (H (KEarn RIng));
   pose proof (H (KEarn REgr)); pose proof (H (KEarn RRR)); pose proof (H (KEarn RRW)).
-  cbn in *. congruence.
+  cbn in *. subst. reflexivity.
 Qed.
 
 (** * what a list of metric calls adds to / subtracts from one stat *)
@@ -154,15 +154,15 @@ Definition Inv (s : state) : Prop :=
 Definition good (r : rs state) : Prop := goodr Inv (eq PNegStat) r.
 
 Lemma msum1_app l1 l2 k : msum1 (l1 ++ l2) k = msum1 l1 k + msum1 l2 k.
-Proof. induction l1; cbn; lia. Qed.
+Proof. unfold msum1. induction l1 as [|x t IH]; cbn [app fold_right]; lia. Qed.
 Lemma msum2_app l1 l2 k : msum2 (l1 ++ l2) k = msum2 l1 k + msum2 l2 k.
-Proof. induction l1; cbn; lia. Qed.
+Proof. unfold msum2. induction l1 as [|x t IH]; cbn [app fold_right]; lia. Qed.
 
 Lemma msum1_repl id l c c' k :
   find1 id l = Some c -> id1 c' = id1 c ->
   msum1 (repl1 c' l) k + contrib1 c k = msum1 l k + contrib1 c' k.
 Proof.
-  unfold find1, repl1. intros Hf Hid. pose proof (findk_key _ _ _ _ _ Hf) as Hk.
+  unfold find1, repl1, msum1. intros Hf Hid. pose proof (findk_key _ _ _ _ _ Hf) as Hk.
   induction l as [|x t IH]; cbn in *; [discriminate|].
   destruct (id1 x =? id) eqn:E.
   - injection Hf as ->. replace (id1 c =? id1 c') with true by lia. cbn. lia.
@@ -172,7 +172,7 @@ Lemma msum2_repl id l c c' k :
   find2 id l = Some c -> id2 c' = id2 c ->
   msum2 (repl2 c' l) k + contrib2 c k = msum2 l k + contrib2 c' k.
 Proof.
-  unfold find2, repl2. intros Hf Hid. pose proof (findk_key _ _ _ _ _ Hf) as Hk.
+  unfold find2, repl2, msum2. intros Hf Hid. pose proof (findk_key _ _ _ _ _ Hf) as Hk.
   induction l as [|x t IH]; cbn in *; [discriminate|].
   destruct (id2 x =? id) eqn:E.
   - injection Hf as ->. replace (id2 c =? id2 c') with true by lia. cbn. lia.
@@ -181,14 +181,17 @@ Qed.
 
 Lemma msum1_ge id l c k : find1 id l = Some c -> contrib1 c k <= msum1 l k.
 Proof.
-  unfold find1. induction l as [|x t IH]; cbn; [discriminate|].
+  unfold find1, msum1. induction l as [|x t IH]; cbn; [discriminate|].
   destruct (id1 x =? id); [intros [= ->]; lia|intros H; specialize (IH H); lia].
 Qed.
 Lemma msum2_ge id l c k : find2 id l = Some c -> contrib2 c k <= msum2 l k.
 Proof.
-  unfold find2. induction l as [|x t IH]; cbn; [discriminate|].
+  unfold find2, msum2. induction l as [|x t IH]; cbn; [discriminate|].
   destruct (id2 x =? id); [intros [= ->]; lia|intros H; specialize (IH H); lia].
 Qed.
+
+Arguments msum1 : simpl never.
+Arguments msum2 : simpl never.
 
 (** * what every row transition has to satisfy *)
 Definition rowfacts1 (c c' : c1) (ops : list mop) : Prop :=
@@ -253,17 +256,17 @@ Ltac in_cases H :=
          | (_, _, _) = (_, _, _) => inversion H; subst; clear H
          end.
 
-Ltac each_key := intros k; destruct k as [| | | | | | |r|r]; try destruct r; cbn; lia.
+Ltac each_key := let k := fresh "k" in let q := fresh "q" in intros k; destruct k as [| | | | | | |q|q]; try destruct q; cbn; lia.
 
 Ltac rowfacts_tac :=
   cbn; split; [reflexivity | split; [reflexivity | split;
-     [ intros k d H; in_cases H; cbn; lia | each_key ]]].
+     [ let k := fresh "k" in let d := fresh "d" in let H := fresh "H" in intros k d H; in_cases H; cbn; lia | each_key ]]].
 
 Ltac row1_tac :=
-  intros c; destruct c as [i st fo r cr rh ng lk u]; destruct u; destruct st; cbn;
+  let c := fresh "c" in intros c; destruct c as [? st ? ? ? ? ? ? u]; destruct u; destruct st; cbn;
   try exact I; try discriminate; rowfacts_tac.
 Ltac row2_tac :=
-  intros c; destruct c as [i st cf rs_ el r ng lk u]; destruct u; destruct st; cbn;
+  let c := fresh "c" in intros c; destruct c as [? st ? ? ? ? ? ? u]; destruct u; destruct st; cbn;
   try exact I; try discriminate; rowfacts_tac.
 
 Lemma form1_ok : row_ok1 form1. Proof. row1_tac. Qed.
@@ -277,8 +280,8 @@ Lemma rej1_ok : row_ok1 rej1. Proof. row1_tac. Qed.
 Lemma revise1_ok r u : row_ok1 (revise1 r u). Proof. destruct u. row1_tac. Qed.
 Lemma debit_row1_ok sp ad : row_ok1 (debit_row1 sp ad).
 Proof.
-  destruct ad. intros c; destruct c as [i st fo r cr rh ng lk u]; destruct u.
-  unfold debit_row1; cbn [use1 uFund]. destruct (_ <? _); [discriminate|].
+  destruct ad. intros c; destruct c as [? st ? ? ? ? ? ? u]; destruct u.
+  unfold debit_row1; cbn. destruct (_ <? _); [discriminate|].
   destruct st; rowfacts_tac.
 Qed.
 
@@ -295,7 +298,7 @@ Lemma rej2_ok : row_ok2 rej2. Proof. row2_tac. Qed.
 Lemma revise2_ok r u : row_ok2 (revise2 r u). Proof. destruct u. row2_tac. Qed.
 Lemma debit_row2_ok sp ad : row_ok2 (debit_row2 sp ad).
 Proof.
-  destruct ad. intros c; destruct c as [i st cf rs_ el r ng lk u]; destruct u.
-  unfold debit_row2; cbn [use2 uFund]. destruct (_ <? _); [discriminate|].
+  destruct ad. intros c; destruct c as [? st ? ? ? ? ? ? u]; destruct u.
+  unfold debit_row2; cbn. destruct (_ <? _); [discriminate|].
   destruct st; rowfacts_tac.
 Qed.
